@@ -535,7 +535,7 @@ fn fam_indirect(rng: &mut Rng) -> Cfg {
     let mut c = Cfg::new("indirect");
     let s = c.nt("Unit");
     c.start = s;
-    let k = rng.range(2, 4);
+    let k = 2 + rng.weighted(&[1, 2, 2]);
     let names = ["Expr", "Call", "Member", "Target"];
     let cyc: Vec<usize> = (0..k).map(|i| c.nt(names[i])).collect();
     let mut suffixes = vec![];
@@ -577,9 +577,9 @@ fn fam_indirect(rng: &mut Rng) -> Cfg {
     for u in 0..uses {
         let which = cyc[rng.below(k)];
         let mut rhs = if rng.chance(1, 2) { vec![N(lead), N(which)] } else { vec![T(lt), N(which)] };
-        match rng.below(3) {
+        match rng.below(4) {
             0 => {}
-            1 => rhs.push(T(suffixes[rng.below(k)])),
+            1 | 2 => rhs.push(T(suffixes[rng.below(k)])),
             _ => {
                 let f = c.term(&format!("Follow{}", u));
                 rhs.push(T(f));
@@ -1268,7 +1268,7 @@ pub fn accepted_family(rng: &mut Rng) -> Cfg {
         dedup_rules(&mut c);
         return c;
     }
-    let w = rng.weighted(&[3, 4, 3, 4, 2, 2, 2, 2, 3, 3, 3, 3, 2, 3, 6, 8, 3, 1]);
+    let w = rng.weighted(&[3, 4, 3, 4, 2, 2, 2, 2, 5, 3, 3, 3, 2, 3, 6, 8, 3, 1]);
     let mut c = match w {
         0..=15 => base_family(rng, w),
         16 => fam_compose(rng),
